@@ -111,8 +111,63 @@ func (core *JApiCore) buildUserTypes() *jerr.JApiError {
 		return adoptError(err)
 	}
 
+	if je := core.checkUserTypeReferences(); je != nil {
+		return je
+	}
+
 	err = core.userTypes.Each(func(n string, _ schema.Schema) error {
 		return core.compileUserTypeWithAllDependencies(n)
+	})
+	return adoptError(err)
+}
+
+// maxUserTypeReferenceSteps limits the work of checkUserTypeReferences.
+const maxUserTypeReferenceSteps = 1 << 22
+
+// checkUserTypeReferences walks, from every user type, along all chains of
+// references between the types, as the recursion check of the schema library
+// does for every schema that is compiled. The number of chains can grow
+// exponentially with the number of types (TYPE @t1 refers to @t2 and @t3, @t2 to
+// @t3 and @t4, and so on: 50 such types keep the library busy for hours), so the
+// walk is counted and given up with an error when it gets too long.
+func (core *JApiCore) checkUserTypeReferences() *jerr.JApiError {
+	refs := make(map[string][]string, core.userTypes.Len())
+	_ = core.userTypes.Each(func(k string, ut schema.Schema) error {
+		if js, ok := ut.(*jschema.JSchema); ok {
+			// A fault in the text of the type is reported when it is compiled.
+			if names, err := js.UsedUserTypes(); err == nil {
+				refs[k] = names
+			}
+		}
+		return nil
+	})
+
+	steps := 0
+	onPath := make(map[string]struct{}, len(refs))
+	var walk func(n string) bool
+	walk = func(n string) bool {
+		steps++
+		if steps > maxUserTypeReferenceSteps {
+			return false
+		}
+		onPath[n] = struct{}{}
+		for _, r := range refs[n] {
+			if _, ok := onPath[r]; ok {
+				continue
+			}
+			if !walk(r) {
+				return false
+			}
+		}
+		delete(onPath, n)
+		return true
+	}
+
+	err := core.userTypes.Each(func(k string, _ schema.Schema) error {
+		if !walk(k) {
+			return core.rawUserTypes.GetValue(k).KeywordError(jerr.TooManyTypeReferences)
+		}
+		return nil
 	})
 	return adoptError(err)
 }
